@@ -391,6 +391,17 @@ func c05OrderPrograms() []*progCase {
 	add(Ex(Asg("=", V("r"), CallE(V("id3"), tr("1", N("1")), tr("2", N("2")), tr("3", N("3"))))), Pr(V("r")))
 	add(Ex(Asg("=", V("r"), Arr_(tr("1", N("1")), tr("2", N("2")), tr("3", N("3"))))), Pr(V("r")))
 	add(Ex(Asg("=", V("r"), &ObjLit{Keys: []string{"b", "a"}, Vals: []Expr{tr("b", N("1")), tr("a", N("2"))}})), Pr(V("r")))
+	{
+		keys := []string{"h", "c", "a", "g", "b", "f", "d", "e"}
+		for rep := 0; rep < 3; rep++ {
+			var vals []Expr
+			for i, k := range keys {
+				vals = append(vals, tr(k, N(fmt.Sprint(i+rep))))
+			}
+			add(Ex(Asg("=", V("r"), &ObjLit{Keys: keys, Vals: vals})), Pr(V("r")), Ex(Asg("=", V("i"), N("0"))),
+				Ex(Asg("=", V("r"), &ObjLit{Keys: keys[rep : rep+5], Vals: []Expr{&Postfix{Op: "++", X: V("i")}, &Postfix{Op: "++", X: V("i")}, &Postfix{Op: "++", X: V("i")}, &Postfix{Op: "++", X: V("i")}, &Postfix{Op: "++", X: V("i")}}})), Pr(V("r")))
+		}
+	}
 	add(Ex(Asg("=", V("r"), Idx(tr("base", V("arr")), tr("index", N("1"))))), Pr(V("r")))
 	add(Ex(Asg("=", Idx(tr("base", V("arr")), tr("index", N("1"))), tr("value", N("9")))), Pr(V("arr")))
 	add(Ex(Asg("=", Mem(tr("base", V("obj")), "z"), tr("value", N("9")))), Pr(V("obj")))
@@ -406,6 +417,66 @@ func c05OrderPrograms() []*progCase {
 	add(Ex(Asg("=", V("r"), Un("-", tr("x", N("1"))))), Ex(Asg("=", V("r2"), Un("!", tr("y", N("0"))))), Pr(V("r"), V("r2")))
 	add(Ex(Asg("=", V("r"), Bin("+", Bin("*", tr("a", N("2")), tr("b", N("3"))), Bin("*", tr("c", N("4")), tr("d", N("5")))))), Pr(V("r")))
 	add(Ex(Asg("=", V("r"), Bin("&&", Bin("||", tr("a", N("0")), tr("b", N("1"))), Bin("||", tr("c", N("0")), tr("d", N("0")))))), Pr(V("r")))
+	return out
+}
+
+// c05DerivedPrograms: a number sits in one location; every form derived from it (string form in concatenation and ~,
+// rendering, JSON text, arithmetic, comparison) is taken, the location is changed by one of the ways a number can change,
+// and every form is taken again -- twice. Anything remembered about the old number would show.
+func c05DerivedPrograms() []*progCase {
+	type loc struct {
+		init func(n string) []Stmt
+		x    func() Expr
+		doc  bool
+	}
+	locs := []loc{
+		{func(n string) []Stmt { return []Stmt{Ex(Asg("=", V("i"), N(n)))} }, func() Expr { return V("i") }, false},
+		{func(n string) []Stmt { return []Stmt{Ex(Asg("=", V("o"), &ObjLit{Keys: []string{"k"}, Vals: []Expr{N(n)}}))} }, func() Expr { return Mem(V("o"), "k") }, false},
+		{func(n string) []Stmt { return []Stmt{Ex(Asg("=", V("a"), Arr_(N(n), N("5"))))} }, func() Expr { return Idx(V("a"), N("0")) }, false},
+		{nil, func() Expr { return Mem(V("$"), "x") }, true},
+	}
+	muts := []func(x Expr) Expr{
+		func(x Expr) Expr { return &Postfix{Op: "++", X: x} },
+		func(x Expr) Expr { return Un("++", x) },
+		func(x Expr) Expr { return &Postfix{Op: "--", X: x} },
+		func(x Expr) Expr { return Un("--", x) },
+		func(x Expr) Expr { return Asg("+=", x, N("1")) },
+		func(x Expr) Expr { return Asg("-=", x, N("0.5")) },
+		func(x Expr) Expr { return Asg("*=", x, N("2")) },
+		func(x Expr) Expr { return Asg("/=", x, N("4")) },
+		func(x Expr) Expr { return Asg("=", x, Bin("+", x, N("1"))) },
+		func(x Expr) Expr { return Asg("=", x, S("9")) },
+	}
+	take := func(x func() Expr) Stmt {
+		return Pr(Bin("+", S("n"), x()), Bin("+", x(), S("s")), Bin("~", x(), &RegexLit{Src: "^9$"}), Bin("!~", x(), &RegexLit{Src: "1"}), x(), Arr_(x()),
+			Bin("+", x(), N("1")), Bin("<", x(), N("10")), Bin("==", x(), N("9")), Un("-", x()), Bin("+", Bin("+", S("<"), x()), S(">")))
+	}
+	var out []*progCase
+	for _, n := range []string{"9", "0", "8", "1.5", "99"} {
+		for _, l := range locs {
+			for _, m1 := range muts {
+				for _, m2 := range muts {
+					var body []Stmt
+					if !l.doc {
+						body = append(body, l.init(n)...)
+					}
+					body = append(body, take(l.x), Blk(Ex(m1(l.x()))), take(l.x), Blk(Ex(m2(l.x()))), take(l.x)) // a statement that starts with ++ would continue the line before it
+					pc := &progCase{P: &Program{Rules: []*Rule{{Kind: "BEGIN", Body: Blk(body...)}}}}
+					if l.doc {
+						pc.P.Rules[0].Kind = ""
+						pc.Files = []inFile{{"in.json", `[{"x":` + n + `},{"x":` + n + `}]`}}
+						pc.Root = true
+					}
+					out = append(out, pc)
+				}
+			}
+		}
+	}
+	// the loop idiom: one site, the counter stepped by the loop header
+	for _, post := range []func(x Expr) Expr{muts[0], muts[1], muts[4], muts[8]} {
+		out = append(out, &progCase{P: &Program{Rules: []*Rule{{Kind: "BEGIN", Body: Blk(
+			&For{Init: Asg("=", V("i"), N("8")), Cond: Bin("<", V("i"), N("12")), Post: post(V("i")), Body: take(func() Expr { return V("i") })})}}}})
+	}
 	return out
 }
 
@@ -434,7 +505,7 @@ func init() {
 	fw.Register(&fw.Prop{
 		ID: "C05",
 		Rule: "every binary operator x every ordered pair of the operand alphabet x three supply modes (literal, variables, document fields); every unary operator, ++/-- in both positions, `is` x 10 type names, " +
-			"short-circuit probes with a tracing call, and every operator as ONE expression site evaluated over the whole sequence of operand pairs (forward and reversed, ending in a failing pair); tracing calls in every operand position of every operator and composite form (order and extent of evaluation); every string d.dd / dd.dd as a number; a state is a table cell (form, operator, left kind, right kind, outcome); non-trivial = cells whose model result is a value; numeric results are compared as doubles",
+			"short-circuit probes with a tracing call, and every operator as ONE expression site evaluated over the whole sequence of operand pairs (forward and reversed, ending in a failing pair); tracing calls in every operand position of every operator and composite form incl. 8-key object literals (order and extent of evaluation); a number in a variable / member / array cell / document field with every derived form (string form in + and ~, rendering, JSON text, arithmetic, comparison) taken before and after each ordered pair of 10 ways to change it; every string d.dd / dd.dd as a number; a state is a table cell (form, operator, left kind, right kind, outcome); non-trivial = cells whose model result is a value; numeric results are compared as doubles",
 		Plan: func(t fw.Tier) int { return len(c05Operands(t == fw.Thorough)) + 1 },
 		Bound: func(t fw.Tier) string {
 			return fmt.Sprintf("operand alphabet of %d values, all ordered pairs, all operators, 3 supply modes", len(c05Operands(t == fw.Thorough)))
@@ -446,6 +517,10 @@ func init() {
 				for i, pc := range c05OrderPrograms() {
 					pc, i := pc, i
 					c.Do(func() any { return c05Spec{Form: "order", L: i, Text: pc.source()} }, func() *fw.Violation { v, _, _ := pc.check(c); return v })
+				}
+				for i, pc := range c05DerivedPrograms() {
+					pc, i := pc, i
+					c.Do(func() any { return c05Spec{Form: "derived", L: i, Text: pc.source()} }, func() *fw.Violation { v, _, _ := pc.check(c); return v })
 				}
 				for lo := 0; lo < 10000; lo += 1000 {
 					lo := lo
@@ -506,6 +581,10 @@ func init() {
 			}
 			if s.Form == "order" {
 				v, _, _ := c05OrderPrograms()[s.L].check(c)
+				return v
+			}
+			if s.Form == "derived" {
+				v, _, _ := c05DerivedPrograms()[s.L].check(c)
 				return v
 			}
 			if s.Form == "numstr" {
